@@ -832,7 +832,7 @@ impl Check for Multi {
         self.id
     }
     fn engine(&self) -> &'static str {
-        "L+W"
+        if self.parts.iter().any(|p| p.engine() == "K") { "L+K" } else { "L+W" }
     }
     fn level(&self) -> &'static str {
         self.parts[0].level()
@@ -901,6 +901,24 @@ pub fn all() -> Vec<Box<dyn Check>> {
                 weights: vec![5, 1],
             }),
         );
+    }
+    // C04: the shell (engine L) plus the bare scheduler on generated states (engine K)
+    {
+        let pos = v.iter().position(|c| c.id() == "C04").unwrap();
+        let l = v.remove(pos);
+        let k = Box::new(crate::ksim::checks::KCheck {
+            id: "C04",
+            level: "exploration",
+            generate: crate::ksim::checks::gen_select,
+            monitors: || vec![Box::new(crate::ksim::sel::C04K::default())],
+            full_select_obs: true,
+            quick_runs: 4_000,
+            thorough_runs: 400_000,
+            rule: "selection histories on the real core (generator shared with C03): whatever select_connection_idx returns must be, by the monitor's own event-derived model, registered since its last reset, connected, heard within the timeout, and not stall-gated in that decision",
+            assumptions: &["state is built through the real event API (see C03)"],
+            probes: &["c04k.decision", "c04k.ineligible_link_present"],
+        });
+        v.insert(pos, Box::new(Multi { id: "C04", parts: vec![l, k], weights: vec![1, 10] }));
     }
     v.extend(k_checks());
     v.push(Box::new(crate::tsim::c18::C18Check));
